@@ -64,6 +64,19 @@ func (e *Engine) typeTag(t types.Type) int {
 	return id
 }
 
+// typeTagByKey gives a tag for a pseudo type name.
+func (e *Engine) typeTagByKey(k string) int {
+	if e.typeTags == nil {
+		e.typeTags = map[string]int{}
+	}
+	id, ok := e.typeTags[k]
+	if !ok {
+		id = len(e.typeTags) + 1
+		e.typeTags[k] = id
+	}
+	return id
+}
+
 func (f *frame) makeInterface(ins *ssa.MakeInterface) Val {
 	u := f.u
 	x := f.value(ins.X)
